@@ -178,6 +178,24 @@ pub fn run(ctx: Ctx) -> ! {
     }
     drive::run_reqs(&ctx, &world, &slots, &trunc, false, verdict);
     drive::run_reqs(&ctx, &world, &slots, &muts, false, verdict);
+    // TSIG-signed templates relayed under another ID: the header ID is
+    // rewritten after signing (a forwarder does that, RFC 8945 5.5; the MAC
+    // covers the TSIG original ID and still verifies) - the response must
+    // carry the header ID of the message as received.
+    let mut relayed = Vec::new();
+    for t in templates.iter().filter(|t| t.tsig.is_some()) {
+        let orig = u16::from_be_bytes([t.bytes[0], t.bytes[1]]);
+        for id in [0u16, 1, orig ^ 0x0100, orig.wrapping_add(1), 0xffff] {
+            if id == orig {
+                continue;
+            }
+            let mut b = t.bytes.clone();
+            b[0..2].copy_from_slice(&id.to_be_bytes());
+            relayed.push(families::Req { family: "relayed-tsig", desc: format!("{} with header ID {id:#06x} (TSIG original ID {orig:#06x})", t.name), bytes: b });
+        }
+    }
+    ctx.set_extra("family_relayed_tsig_requests", json!(relayed.len()));
+    drive::run_reqs(&ctx, &world, &slots, &relayed, false, verdict);
     if !ctx.quick() {
         drive::run_reqs(&ctx, &world, &slots, &muts, true, verdict);
         let pair_slots = vec![Slot::new(&world, "std", Cfg::plain(1232, true))];
@@ -189,4 +207,4 @@ pub fn run(ctx: Ctx) -> ! {
     ctx.finish("exploration", RULE, true)
 }
 
-const RULE: &str = "all 65536 flag words x 3 IDs x message bodies (QDCOUNT 0/1/2/65535, valid mixed-case / compressed / unparseable / absent question, with OPT, junk, records) x transports x 2 servers; every header prefix < 12 octets; every truncation and single mutation of every request template x RRL-free configurations x catalogs (+ both rate-limiting configurations on the std catalog, each request sent twice) (thorough: x every truncation, mutation pairs); oracle: closed formula of the statement (ID, opcode, QR, RD only for QUERY, RA = 0, Z = 0, question echoed octet for octet, no response for QR / short / QDCOUNT > 1)";
+const RULE: &str = "all 65536 flag words x 3 IDs x message bodies (QDCOUNT 0/1/2/65535, valid mixed-case / compressed / unparseable / absent question, with OPT, junk, records) x transports x 2 servers; every header prefix < 12 octets; every truncation and single mutation of every request template (and every TSIG-signed template under 5 other header IDs) x RRL-free configurations x catalogs (+ both rate-limiting configurations on the std catalog, each request sent twice) (thorough: x every truncation, mutation pairs); oracle: closed formula of the statement (ID, opcode, QR, RD only for QUERY, RA = 0, Z = 0, question echoed octet for octet, no response for QR / short / QDCOUNT > 1)";
